@@ -13,7 +13,7 @@ PROP = {
             "modules returning a local table / table literal / function / number / nothing; optional library root outside or inside the main root "
             "declaring the same kinds) exported P=6 (quick) / 12 (thorough) times, to stdout and to a file; distinct = FNV(workspace); "
             "non-trivial = >= 3 non-module items and >= 2 modules with a return value in the main root",
-    "min_nontrivial": {"quick": 20, "thorough": 400},
+    "min_nontrivial": {"quick": 10, "thorough": 200},
     "max_secs": {"quick": 60, "thorough": 1000},
     "require_clauses": ["a:byte-identity", "b:manifest-complete", "c:library-excluded", "c:std-excluded"],
     "assumptions": COMMON_ASSUME + [
